@@ -10132,8 +10132,17 @@ func (p *parser) recordDeclaredSymbol(ref ast.Ref) {
 
 	// Check whether this symbol was hoisted out of a nested scope into the module scope
 	if !isTopLevel {
-		if symbol := p.symbols[ref.InnerIndex]; symbol.Kind.IsHoisted() && p.moduleScope.Members[symbol.OriginalName].Ref == ref {
-			isTopLevel = true
+		if symbol := p.symbols[ref.InnerIndex]; symbol.Kind.IsHoisted() {
+			// If hoisting merged this symbol into an existing one (e.g. a "var"
+			// in a nested block that redeclares a top-level "var" or function),
+			// the module scope holds the symbol at the end of the link chain
+			target := ref
+			for p.symbols[target.InnerIndex].Link != ast.InvalidRef {
+				target = p.symbols[target.InnerIndex].Link
+			}
+			if p.moduleScope.Members[symbol.OriginalName].Ref == target {
+				isTopLevel = true
+			}
 		}
 	}
 
